@@ -9,7 +9,8 @@
 //!             | (Limited "goal" [i ...])     should_continue answers false at its i-th call (0-based, per step)
 //!             | (LimitedFrom "goal" k)       ... at every call with index >= k
 //!             | (PanicAt "goal" [n ...])     the n-th database call of this step (0-based) panics
-//!   opt     ::= Checked | (Cpu secs) | (StackMb n) | (MemMb n)
+//!   opt     ::= Checked | Trace | (Cpu secs) | (StackMb n) | (MemMb n)
+//!               (Trace: each S gets a 6th field, the list of database callback names in call order)
 //!   result  ::= (Result [<stepres> ...]) | (ProgramError "msg")
 //!   stepres ::= (S <answer> db_calls continue_calls slg_work rec_work) | (GoalError "msg")
 //!   answer  ::= as in solve.rs | (Panic "msg") | Timeout | (Abort "why") | Skipped
@@ -73,16 +74,21 @@ struct TickDb<'a> {
     db: &'a dyn RustIrDatabase<ChalkIr>,
     calls: Cell<u64>,
     panic_at: Vec<u64>,
+    names: std::cell::RefCell<Vec<&'static str>>,
 }
+
+/// option `Trace`: every step also reports the names of the database callbacks it made, in order
+static TRACE: std::sync::atomic::AtomicBool = std::sync::atomic::AtomicBool::new(false);
 
 impl<'a> std::fmt::Debug for TickDb<'a> {
     fn fmt(&self, f: &mut std::fmt::Formatter<'_>) -> std::fmt::Result { write!(f, "TickDb") }
 }
 
 impl<'a> TickDb<'a> {
-    fn tick(&self) -> &'a dyn RustIrDatabase<ChalkIr> {
+    fn tick(&self, name: &'static str) -> &'a dyn RustIrDatabase<ChalkIr> {
         let n = self.calls.get();
         self.calls.set(n + 1);
+        if TRACE.load(std::sync::atomic::Ordering::Relaxed) { self.names.borrow_mut().push(name); }
         if self.panic_at.contains(&n) { panic!("{}", INJECTED); }
         self.db
     }
@@ -90,10 +96,10 @@ impl<'a> TickDb<'a> {
 
 impl<'a> UnificationDatabase<ChalkIr> for TickDb<'a> {
     fn fn_def_variance(&self, fn_def_id: FnDefId<ChalkIr>) -> Variances<ChalkIr> {
-        self.tick().unification_database().fn_def_variance(fn_def_id)
+        self.tick("fn_def_variance").unification_database().fn_def_variance(fn_def_id)
     }
     fn adt_variance(&self, adt_id: AdtId<ChalkIr>) -> Variances<ChalkIr> {
-        self.tick().unification_database().adt_variance(adt_id)
+        self.tick("adt_variance").unification_database().adt_variance(adt_id)
     }
 }
 
@@ -396,7 +402,7 @@ fn do_step(db: &ChalkDatabase, program: &Arc<Program>, solver: &mut Box<dyn Solv
         },
     };
     let pe = peel(lowered);
-    let tdb = TickDb { db, calls: Cell::new(0), panic_at };
+    let tdb = TickDb { db, calls: Cell::new(0), panic_at, names: Default::default() };
     let sc_calls = Cell::new(0u64);
     chalk_engine::verif::reset_work();
     chalk_recursive::verif::reset_work();
@@ -418,8 +424,12 @@ fn do_step(db: &ChalkDatabase, program: &Arc<Program>, solver: &mut Box<dyn Solv
         Ok(s) => s,
         Err(msg) => Sexp::App("Panic".into(), vec![Sexp::Str(msg)]),
     };
-    Sexp::App("S".into(), vec![ans, Sexp::Num(tdb.calls.get()), Sexp::Num(sc_calls.get()),
-        Sexp::Num(chalk_engine::verif::work()), Sexp::Num(chalk_recursive::verif::work())])
+    let mut fields = vec![ans, Sexp::Num(tdb.calls.get()), Sexp::Num(sc_calls.get()),
+        Sexp::Num(chalk_engine::verif::work()), Sexp::Num(chalk_recursive::verif::work())];
+    if TRACE.load(std::sync::atomic::Ordering::Relaxed) {
+        fields.push(Sexp::List(tdb.names.borrow().iter().map(|n| Sexp::Atom((*n).into())).collect()));
+    }
+    Sexp::App("S".into(), fields)
 }
 
 fn load(cfg: &Cfg, text: &str) -> Result<(ChalkDatabase, Arc<Program>), String> {
@@ -437,10 +447,12 @@ fn run_case(case: &Sexp) -> Result<Sexp, String> {
     let text = a[0].as_str()?.to_string();
     let mut cfg = Cfg { solver: parse_solver(&a[1])?, checked: false, cpu: 10, stack_mb: 64, mem_mb: 4096 };
     let steps: Vec<Step> = a[2].as_list()?.iter().map(parse_step).collect::<Result<_, _>>()?;
+    let mut trace = false;
     if a.len() > 3 {
         for o in a[3].as_list()? {
             match o.head() {
                 Some("Checked") => cfg.checked = true,
+                Some("Trace") => trace = true,
                 Some("Cpu") => cfg.cpu = o.args()[0].as_num()?,
                 Some("StackMb") => cfg.stack_mb = o.args()[0].as_num()? as usize,
                 Some("MemMb") => cfg.mem_mb = o.args()[0].as_num()?,
@@ -448,6 +460,7 @@ fn run_case(case: &Sexp) -> Result<Sexp, String> {
             }
         }
     }
+    TRACE.store(trace, std::sync::atomic::Ordering::Relaxed);
     let n = steps.len();
     let (lines, end) = in_child(&cfg, |emit| {
         match guarded(|| load(&cfg, &text)) {
